@@ -815,7 +815,11 @@ func (p *Parser) parseForEach() ast.Expression {
 	}
 
 	// parse the block
-	p.nextToken()
+	if !p.expectPeek(token.LBRACE) {
+		msg := fmt.Sprintf("expected { but got %s around %s", p.curToken.Literal, p.curToken.Position())
+		p.errors = append(p.errors, msg)
+		return nil
+	}
 	expression.Body = p.parseBlockStatement()
 
 	return expression
